@@ -68,6 +68,12 @@ def configs():
 
 
 def check(prog, run):
+    astq.shortcut_obligations(prog, run, [m_.qual for _, m_ in prog.class_methods("pyoma2.algorithms", "run")])
+    run.rule("R-own-option", "every routine reachable from run / mpe hands its options to the helpers that repeat them with the same default (an option left out is the "
+             "helper's default whatever the user set)", 20)
+    raw_ = prog.raw
+    roots_ = [m_.qual for nm_ in ("run", "mpe", "mpe_from_plot") for _, m_ in raw_.class_methods("pyoma2.algorithms", nm_)]
+    astq.repeated_option_rule(raw_, run, "R-own-option", sorted(q_ for q_ in raw_.reachable(roots_) if q_ in raw_.functions and not q_.startswith("pyoma2.functions.plot")))
     run.rule("O-degree", "every output of run()/mpe() is homogeneous of the degree the property states in the data gain g and the time unit s "
              "(frequencies/eigenvalues s^-1, damping/shapes/labels 1; gain exponent 0 everywhere)", 60)
     run.rule("O-hom", "on every path to those outputs: no sum of different degrees, no log/exp/arccos/inverse of a non-homogeneous "
